@@ -7,13 +7,13 @@ LW = "crates/ast/src/lower.rs"
 A = "crates/ast/src/ast.rs"
 ROOT = os.path.dirname(os.path.dirname(os.path.abspath(__file__)))
 # the AST shim with the REAL operator enum instead of the opaque one
-AST_SHIM = open(os.path.join(ROOT, "contracts/ast.shim.rs")).read().replace("#[verifier::external_body] #[derive(Clone, Copy)] pub struct BinaryOp { _p: u64 }\n", "")
+AST_SHIM = open(os.path.join(ROOT, "contracts/ast.shim.rs")).read().replace("#[verifier::external_body] #[derive(Clone, Copy)] pub struct BinaryOp { _p: u64 }\n", "").replace("#[verifier::external_body] #[derive(Clone, Copy)] pub struct UnaryOp { _p: u64 }\n", "")
 
 UNIT = Unit(
     name="U-BINLOWER",
     properties=["C11"],
     rules=["attrs"],
-    describe="ast::lower, binary operator nodes (fragment: the twelve operator arms of the BinaryExpr arm of lower_expr_with_args): the operator token is read as the operator it "
+    describe="ast::lower, binary and prefix operator nodes (fragments: the operator choice of the PrefixExpr arm; the twelve operator arms of the BinaryExpr arm of lower_expr_with_args): the operator token is read as the operator it "
              "writes (`+` addition, `-` subtraction, `*`, `/`, `&&`, `||`, `<`, `>`, `<=`, `>=`, `==`, `!=`), the node's first operand is the LEFT operand and its second the RIGHT "
              "one, and trailing call arguments go to the right operand (`a + f(x)`)",
     trusted=["FRAGMENT lower_binop: from `match op_token.kind() {` up to the `.` arm (U-CALLLOWER's lower_dot); the checks before it (operands and operator present) are dropped; "
@@ -23,6 +23,7 @@ UNIT = Unit(
         Raw(text="pub mod ast {\nuse vstd::prelude::*;\n"),
         Raw(text=AST_SHIM),
         Adt(file="crates/common-defs/src/lib.rs", kw="enum", name="BinaryOp", rules=["attrs"]),
+        Adt(file="crates/common-defs/src/lib.rs", kw="enum", name="UnaryOp", rules=["attrs"]),
         Adt(file=A, kw="struct", name="AstIdent", rules=["attrs"]),
         Adt(file=A, kw="struct", name="ClosureParam", rules=["attrs"]),
         Adt(file=A, kw="enum", name="Expr", rules=["attrs", ("strip", "common_defs::")]),
@@ -42,5 +43,13 @@ UNIT = Unit(
            contract="ensures op_of(op_token.kind_of()) matches Some(o) ==> (match lowered_with(rhs_cst, trailing_args@) {\n"
                     "      Some(rv) => r matches Some(ast::Expr::EBinary { op, lhs: l, rhs: rr, astptr: p }) && op == o && *l == lhs && *rr == rv && p == astptr,\n"
                     "      None => r is None }),"),
+        Fn(file=LW, name="lower_expr_with_args", rename="lower_prefix", ret="r", rules=["attrs", "fmtmsg", ("strip", "common_defs::")],
+           cut_from=re.compile(r"let unary = match op_token\.kind\(\) \{"), cut_before="apply_trailing_args(ctx, unary, trailing_args,", cut_tail="    Some(unary)",
+           sig="fn lower_prefix(ctx: &mut LowerCtx, op_token: SyntaxToken, expr: ast::Expr, astptr: MySyntaxNodePtr) -> Option<ast::Expr>",
+           rewrites=[(re.compile(r"\bUnaryOp::"), "ast::UnaryOp::", "*")],
+           obligation="a prefix `-` is negation, a prefix `!` is logical not, of the operand written after it; no other token is a prefix operator",
+           contract="ensures op_token.kind_of() is Minus ==> (r matches Some(ast::Expr::EUnary { op, expr: e, astptr: p }) && op is Neg && *e == expr && p == astptr),\n"
+                    "        op_token.kind_of() is Bang ==> (r matches Some(ast::Expr::EUnary { op, expr: e, astptr: p }) && op is Not && *e == expr && p == astptr),\n"
+                    "        !(op_token.kind_of() is Minus) && !(op_token.kind_of() is Bang) ==> r is None,"),
     ],
 )
